@@ -326,6 +326,19 @@ impl Prop for C19 {
                 let show = |v: &Vec<(u16, String)>| v.get(i).map_or("<nothing>".to_string(), |(p, d)| format!("port {p}: {}", &d[.. d.len().min(120)]));
                 viol(format!("{fam}|transmissions-differ"), &format!("transmission #{i} of the tool is not the one of the library call with the same game, address, port and options"), show(&want), show(&got));
             }
+            // ... and, whatever the library does with it: a port given on the command line is where every
+            // transmission of the tool goes; none given, the game's default port from the golden table
+            let expected_port = scn.port.or_else(|| crate::golden::port(scn.game_id));
+            if let Some(p) = expected_port {
+                if let Some((q, d)) = got.iter().find(|(q, _)| *q != p) {
+                    viol(
+                        format!("{fam}|port-not-the-one-asked"),
+                        if scn.port.is_some() { "the tool sent to another port than the one given with --port" } else { "the tool sent to another port than the game's default" },
+                        format!("port {p}"),
+                        format!("port {q}: {}", &d[.. d.len().min(120)]),
+                    );
+                }
+            }
             // the library's own verdict on this query
             match &reference.result {
                 Some(Ok(Resp::Generic { json: gj, original, nonfinite, .. })) => {
